@@ -1240,3 +1240,61 @@ func throughReturns1(v ssa.Value) []ssa.Value {
 	}
 	return out
 }
+
+// VRet is one way a function returns: a Return instruction, or - where the results of a Return are phis of its own
+// block (named results assigned in the arms of an if / switch, then a bare `return`) - that Return taken through one
+// unconditional predecessor edge, with the results the phis have on that edge.
+type VRet struct {
+	Ret     *ssa.Return
+	At      ssa.Instruction // where the facts of this way of returning hold: the Return, or the jump that leads to it
+	Results []ssa.Value
+}
+
+// VirtualReturns expands DelegatedReturns: merged returns are split per incoming edge (two levels) when every
+// incoming edge is an unconditional jump; otherwise the Return is handed out as it is.
+func VirtualReturns(fn *ssa.Function) []VRet {
+	var out []VRet
+	for _, r := range DelegatedReturns(fn) {
+		out = append(out, splitReturn(VRet{Ret: r, At: r, Results: r.Results}, r.Block(), 0)...)
+	}
+	return out
+}
+
+func splitReturn(v VRet, blk *ssa.BasicBlock, depth int) []VRet {
+	hasPhi := false
+	for _, x := range v.Results {
+		if phi, ok := x.(*ssa.Phi); ok && phi.Block() == blk {
+			hasPhi = true
+		}
+	}
+	if !hasPhi || depth > 2 || len(blk.Preds) < 2 {
+		return []VRet{v}
+	}
+	// the block holds nothing but phis (and debug refs) before the point the results are used
+	if depth > 0 {
+		for _, in := range blk.Instrs[:len(blk.Instrs)-1] {
+			switch in.(type) {
+			case *ssa.Phi, *ssa.DebugRef:
+			default:
+				return []VRet{v}
+			}
+		}
+	}
+	for _, p := range blk.Preds {
+		if _, isJump := p.Instrs[len(p.Instrs)-1].(*ssa.Jump); !isJump {
+			return []VRet{v}
+		}
+	}
+	var out []VRet
+	for k, p := range blk.Preds {
+		res := make([]ssa.Value, len(v.Results))
+		for i, x := range v.Results {
+			res[i] = x
+			if phi, ok := x.(*ssa.Phi); ok && phi.Block() == blk {
+				res[i] = phi.Edges[k]
+			}
+		}
+		out = append(out, splitReturn(VRet{Ret: v.Ret, At: p.Instrs[len(p.Instrs)-1], Results: res}, p, depth+1)...)
+	}
+	return out
+}
